@@ -1639,7 +1639,27 @@ def w_collapse(failure, tier):
             return dict(found=True, cmd='%s search <<< hex(json)' % BIN,
                         input='14 documents in 3 segments (k values %s); query %s, sort %s, collapse %s' % (vals, _json.dumps(r['query']), _json.dumps(r.get('sort')), _json.dumps(r['collapse'])),
                         observed='groups %s total_groups %s' % (got, o['ok'].get('total_groups')), expected='groups %s total_groups %d (from the uncollapsed ranking %s)' % (want, len(want), ref))
-    return dict(found=False, note='collapse: %d requests (2 queries x 3 sorts x up to 11 inner_hits settings) agree with the uncollapsed ranking' % n)
+    # the page size must not change the groups: a request with a small limit returns the first groups of the same request
+    # with a large one, with the same inner hits and the same number of groups
+    gadd = {"numeric_fields": [{"name": "rank", "i64": True, "fast": True, "stored": True}], "keyword_fields": [{"name": "grp", "stored": True, "indexed": True, "fast": True}]}
+    gdocs = [{"_id": i, "body": "alpha", "grp": g, "rank": r} for (i, g, r) in
+             (("a1", "a", 1), ("a2", "a", 2), ("a3", "a", 3), ("a4", "a", 4), ("b1", "b", 5), ("c1", "c", 6), ("a5", "a", 7))]
+    creq = dict(REQ_BASE, query={"type": "match_all"}, limit=10, sort=[{"field": "rank", "order": "asc"}],
+                collapse={"field": "grp", "inner_hits": {"size": 10, "sort": [{"field": "rank", "order": "desc"}]}})
+    for batches in ([gdocs], [gdocs[:3], gdocs[3:]]):
+        out, err = drive_search({"schema": None, "schema_add": gadd, "batches": batches, "requests": [creq, dict(creq, limit=2)]})
+        if out is None or any('ok' not in o for o in out):
+            return dict(found=False, note='search driver failed: %s' % (err or str(out)[:300]))
+        def groups(o):
+            return [(h['doc_id'], [ih['doc_id'] for ih in (h.get('inner_hits') or [])]) for h in o['ok']['hits']]
+        big, small = groups(out[0]), groups(out[1])
+        n += 1
+        if small != big[:2] or out[1]['ok'].get('total_groups') != out[0]['ok'].get('total_groups'):
+            return dict(found=True, cmd='%s search <<< hex(json)' % BIN,
+                        input='a1..a4 (group a, rank 1..4), b1 (b, 5), c1 (c, 6), a5 (a, 7) in %d segment(s); match_all sorted by rank, collapse on grp with inner hits by rank desc; limit 2' % len(batches),
+                        observed='groups %s, total_groups %s' % (small, out[1]['ok'].get('total_groups')),
+                        expected='%s, total_groups %s (the first two groups of the same request with limit 10)' % (big[:2], out[0]['ok'].get('total_groups')))
+    return dict(found=False, note='collapse: %d requests (2 queries x 3 sorts x up to 11 inner_hits settings, and small against large pages) agree with the uncollapsed ranking' % n)
 
 
 def w_relocate(failure, tier):
@@ -2387,7 +2407,7 @@ GENERATORS = {
     ('U61', 'cursor_state_fields'): w_pagination,
     ('U62', 'to_cursor_value'): w_pagination,
     ('U62', 'from_cursor_value'): w_pagination,
-    ('U63', 'candidate_count'): w_rescore,
+    ('U63', 'candidate_count'): lambda failure, tier: (lambda r: r if r.get('found') else w_collapse(failure, tier))(w_rescore(failure, tier)),
     ('U64', 'merged_ranking'): w_rescore,
     ('U6', 'make_snippet'): w_highlight,
     ('U57', 'range_merge_arm'): w_range_layout,
